@@ -326,6 +326,27 @@ def recheck_fresh(prop, tier, verif_seed, indices, hashseed=0, timeout=600):
     return out
 
 
+def _write_and_replay_fresh(prop, verif_seed, path, doc, run=True):
+    """Writes the replay file and (run=True) replays it in a fresh interpreter; True iff that reports the violation."""
+    doc = dict(doc)
+    with open(path, "w") as f:
+        json.dump(doc, f, indent=1, default=str)
+    if not run:
+        return False
+    # exactly what a user runs: the entry script, i.e. a fresh scratch directory and hy compiled afresh
+    env = dict(os.environ)
+    env["VERIF_SEED"] = str(verif_seed)
+    env["VERIF_REPO"] = REPO
+    for k in ("VERIF_SCRATCH", "PYTHONPYCACHEPREFIX"):
+        env.pop(k, None)
+    try:
+        p = subprocess.run([os.path.join(VERIF_DIR, "verif"), prop, "--replay", path], env=env,
+                           capture_output=True, text=True, timeout=600, cwd=VERIF_DIR)
+    except subprocess.TimeoutExpired:
+        return False
+    return p.returncode == 1 and f"VIOLATION property={prop}" in p.stdout
+
+
 def run_batch(prop, tier, verif_seed, n_runs=None, workers=None, budget_s=None, recheck=True):
     t_start = time.monotonic()
     check = _load_check(prop)
@@ -478,21 +499,31 @@ def run_batch(prop, tier, verif_seed, n_runs=None, workers=None, budget_s=None, 
             cands = [x for x in final["violations"] if x.get("clause") == v["clause"] and not known_match(known, prop, x)]
             fv = ([x for x in cands if keep_sig is None or x.get("sig") == keep_sig] or cands)[0]
             path = os.path.join(REPLAY_DIR, f"{prop}-{verif_seed}-{tier}-{i}-{len(new_reports)}.json")
-            with open(path, "w") as f:
-                json.dump({"property": prop, "verif_seed": verif_seed, "tier": tier, "run_index": i,
-                           "run_seed": r["run_seed"], "clause": fv["clause"], "sig": fv.get("sig"),
-                           "detail": fv.get("detail"), "desc": small, "original_desc": desc,
-                           "events": final["events"][:400], "shrink": log}, f, indent=1, default=str)
-            new_reports.append((path, fv))
+            doc = {"property": prop, "verif_seed": verif_seed, "tier": tier, "run_index": i,
+                   "run_seed": r["run_seed"], "clause": fv["clause"], "sig": fv.get("sig"),
+                   "detail": fv.get("detail"), "desc": small, "original_desc": desc,
+                   "events": final["events"][:400], "shrink": log}
+            # the replay file must fail the same way in a fresh interpreter, not only in a fork of this driver
+            # (a violation may depend on heap state, e.g. id() reuse): try the minimised, then the original description
+            fresh_ok = _write_and_replay_fresh(prop, verif_seed, path, doc)
+            if not fresh_ok and canonical(small) != canonical(desc):
+                fresh_ok = _write_and_replay_fresh(prop, verif_seed, path, dict(doc, desc=desc, events=confirm["events"][:400]))
+                if not fresh_ok:
+                    _write_and_replay_fresh(prop, verif_seed, path, doc, run=False)
+            new_reports.append((path, fv, fresh_ok))
 
     if unconfirmed and not new_reports:
         harness_faults.extend(unconfirmed[:3])
     wall = time.monotonic() - t_start
     for key, (k, n) in sorted(known_hits.items()):
         print(f"KNOWN-FINDING: property={prop} {k['what']} (hit {n}x this run)")
-    for path, fv in new_reports:
+    new_reports.sort(key=lambda rep: not rep[2])  # stable: those whose replay file reproduces in a fresh process first
+    for path, fv, fresh_ok in new_reports:
         print(f"VIOLATION property={prop} replay={path}")
         print(f"  clause={fv['clause']} sig={fv.get('sig')} detail={str(fv.get("detail"))[:400]}")
+        if not fresh_ok:
+            print("  note: confirmed by re-execution in forked children of this driver, but the replay file does not "
+                  "reproduce it in a fresh interpreter (outcome depends on process heap state)")
 
     # evidence
     nontrivial = len(sigs)
